@@ -389,8 +389,23 @@ func c02NoSubstringOnJSON(c *Ctx) {
 				return
 			}
 			k, isConst := ir.ConstStr(call.Common().Args[1])
+			if !isConst {
+				if oc, ok := call.Common().Args[1].(*ssa.Convert); ok {
+					k, isConst = ir.ConstStr(oc.X)
+				}
+			}
 			what := "a byte pattern"
 			if isConst {
+				// a search for a separator (a line break, a brace) is framing, not classification
+				word := false
+				for _, r := range k {
+					if r >= 'a' && r <= 'z' || r >= 'A' && r <= 'Z' {
+						word = true
+					}
+				}
+				if !word {
+					return
+				}
 				what = sprintf("%q", k)
 			} else if g := globalBytes(call.Common().Args[1]); g != "" {
 				what = g
@@ -686,6 +701,33 @@ func c09PublishAfterHeader(c *Ctx, rule string) {
 				}
 			}
 		})
+		// … or built by a library constructor that is handed the writer
+		ir.EachInstr(fn, func(_ *ssa.BasicBlock, _ int, in ssa.Instruction) {
+			call, ok := in.(*ssa.Call)
+			if !ok {
+				return
+			}
+			sc := ir.StaticCallee(call)
+			if sc == nil || !c.P.IsLib(sc) {
+				return
+			}
+			uses := false
+			for _, a := range call.Call.Args {
+				if derived[a] {
+					uses = true
+				}
+			}
+			if !uses {
+				return
+			}
+			if pt, ok := call.Type().Underlying().(*types.Pointer); ok {
+				if nm, ok := pt.Elem().(*types.Named); ok {
+					if _, isStruct := nm.Underlying().(*types.Struct); isStruct && ir.InLibrary(nm) {
+						records[call] = nm.Obj().Name()
+					}
+				}
+			}
+		})
 		if len(records) == 0 {
 			continue
 		}
@@ -731,6 +773,11 @@ func c09PublishAfterHeader(c *Ctx, rule string) {
 				}
 				if !uses || !flow.Reaches(pub, u) {
 					return
+				}
+				if cv, ok := u.(ssa.Value); ok {
+					if _, isRec := records[cv]; isRec {
+						return // the constructor call itself (in a loop-free handler it precedes the publication anyway)
+					}
 				}
 				for k := range c.Locks().At(u) {
 					if strings.HasPrefix(k, tname+".") {
@@ -1027,17 +1074,7 @@ func c03ResponseNeedsID(c *Ctx) {
 		if v, op, ok := nilCompare(cond); ok && isIDLoad(v) {
 			return (op == token.NEQ) == branch
 		}
-		switch x := cond.(type) {
-		case *ssa.BinOp:
-			if x.Op == token.EQL || x.Op == token.NEQ {
-				for _, o := range []ssa.Value{x.X, x.Y} {
-					if strings.HasSuffix(ir.TypeStr(o.Type()), "JSONRPCMessageType") {
-						return true
-					}
-				}
-			}
-		case *ssa.Call:
-			sc := ir.StaticCallee(x)
+		testsID := func(sc *ssa.Function) bool {
 			if sc == nil || !c.P.IsLib(sc) || d > 2 {
 				return false
 			}
@@ -1052,6 +1089,22 @@ func c03ResponseNeedsID(c *Ctx) {
 				})
 			}
 			return found
+		}
+		switch x := cond.(type) {
+		case *ssa.BinOp:
+			if x.Op == token.EQL || x.Op == token.NEQ {
+				for _, o := range []ssa.Value{x.X, x.Y} {
+					if strings.HasSuffix(ir.TypeStr(o.Type()), "JSONRPCMessageType") {
+						return true
+					}
+					// the message kind computed by a library classifier that tests the id (kindOf(base) == kindResponse)
+					if oc := originCall(unspill(o)); oc != nil && testsID(ir.StaticCallee(oc)) {
+						return true
+					}
+				}
+			}
+		case *ssa.Call:
+			return testsID(ir.StaticCallee(x))
 		}
 		return false
 	}
@@ -1420,11 +1473,20 @@ func c17AttemptsUnderPolicy(c *Ctx, exec *ssa.Function) {
 					continue
 				}
 				if al, ok := a.(*ssa.Alloc); ok {
-					cfgLocal = al.Comment
+					// a per-call copy is the configured record still; one whose members are then set is not
+					for _, r := range *al.Referrers() {
+						if fa, ok := r.(*ssa.FieldAddr); ok {
+							for _, u := range *fa.Referrers() {
+								if st, ok := u.(*ssa.Store); ok && st.Addr == ssa.Value(fa) {
+									cfgLocal = al.Comment
+								}
+							}
+						}
+					}
 				}
 			}
 			c.R.Check(cfgLocal == "", "R-attempts-under-policy", sprintf("configuration of the executor call in %s", fname(fn)), c.Pos(call.Pos()),
-				"the configured record is handed to the executor as it is",
+				"the configured record (or an unmodified copy of it) is handed to the executor",
 				sprintf("%s runs the retry executor under %q, a configuration record it built or adjusted itself, instead of the configured one: the attempt budget and the backoff sequence the user configured are not the ones applied", fname(fn), cfgLocal))
 			// (b) the operation's attempt function
 			var opFn *ssa.Function
